@@ -116,6 +116,9 @@ func c01Sinks() []c01Sink {
 		{"script-nonce", "verbatim", func(s string) (templ.Component, context.Context) {
 			return tmpl.ScriptNonceSink("n"), templ.WithNonce(bg, s)
 		}},
+		{"script-nonce-in-children", "verbatim", func(s string) (templ.Component, context.Context) {
+			return tmpl.ScriptNonceInChildren("n"), templ.WithNonce(bg, s)
+		}},
 	}
 }
 
